@@ -13,6 +13,18 @@ E2 = "explicit-state search over operation histories of the real objects against
 E3 = "bounded-exhaustive input/configuration enumeration against a reference model (depth-1 model checking)"
 
 CHECKS = {
+    "C14": dict(
+        engine="E2-hist",
+        category="model_checking",
+        technique=E2 + " ('newest live message wins'), plus whole-domain enumeration of expiry thresholds",
+        text="All histories of depth 3 (thorough 4) over five letter groups - per-zone RP, array I over three zone subsets, device broadcasts; zones "
+        "00/01/0B, two values, two devices; each group holds every letter that touches one attribute family plus interleaved letters for other zones and "
+        "codes - fed to a real Gateway with a configured schema: after every step every attribute named by the reference model equals the value of the "
+        "newest message for it. Expiry: one frame per message kind x 8 clock offsets around L and 2L (fresh object and same object, so memoisation is "
+        "covered) and all 65,536 sync-cycle countdown words; at attribute level, after 2L+30 s the value must read unknown on the first and later reads.",
+        design_ref="4/C14",
+        note="A kind's lifetime L is the library's own table (1F09: the countdown in the payload); grace after 2L up to 10 s; the stale first read after expiry is a recorded finding.",
+    ),
     "C15": dict(
         engine="E2-hist + E3-enum",
         category="exploration",
